@@ -1510,3 +1510,68 @@ mod tests {
         }
     }
 }
+
+/// Constructors for the connection harness (`crate::verif::conn`, verification only): a real
+/// negotiated connection pair over loopback, the raw yamux halves of one side (the scripted remote)
+/// and a `TcpConnection` for the other side whose real `start()` is driven by the harness.
+#[cfg(litep2p_verif)]
+impl TcpConnection {
+    /// `(dialer side, listener side)` of a freshly negotiated loopback connection.
+    pub(crate) async fn verif_negotiated_pair(
+        substream_open_timeout: Duration,
+    ) -> Result<(NegotiatedConnection, NegotiatedConnection), String> {
+        let listener =
+            tokio::net::TcpListener::bind("127.0.0.1:0").await.map_err(|e| e.to_string())?;
+        let address = listener.local_addr().map_err(|e| e.to_string())?;
+        let (dialer, accepted) = tokio::join!(TcpStream::connect(address), listener.accept());
+        let dialer = dialer.map_err(|e| e.to_string())?;
+        let (stream, dialer_address) = accepted.map_err(|e| e.to_string())?;
+        let _ = dialer.set_nodelay(true);
+        let _ = stream.set_nodelay(true);
+        let (remote, local) = tokio::join!(
+            Self::open_connection(
+                ConnectionId::from(0usize),
+                Keypair::generate(),
+                dialer,
+                AddressType::Socket(address),
+                None,
+                Default::default(),
+                noise::MAX_READ_AHEAD_FACTOR,
+                noise::MAX_WRITE_BUFFER_SIZE,
+                Duration::from_secs(10),
+                substream_open_timeout,
+            ),
+            Self::accept_connection(
+                stream,
+                ConnectionId::from(1usize),
+                Keypair::generate(),
+                dialer_address,
+                Default::default(),
+                noise::MAX_READ_AHEAD_FACTOR,
+                noise::MAX_WRITE_BUFFER_SIZE,
+                Duration::from_secs(10),
+                substream_open_timeout,
+            ),
+        );
+        Ok((remote.map_err(|e| format!("{e:?}"))?, local.map_err(|e| format!("{e:?}"))?))
+    }
+
+    /// The real connection task for `context`.
+    pub(crate) fn verif_new(context: NegotiatedConnection, protocol_set: ProtocolSet) -> Self {
+        Self::new(context, protocol_set, BandwidthSink::new(), Default::default())
+    }
+}
+
+#[cfg(litep2p_verif)]
+impl NegotiatedConnection {
+    /// Raw yamux halves: the stream of inbound yamux streams (it has to be polled for the
+    /// connection to make progress) and the control handle to open streams.
+    pub(crate) fn verif_into_parts(
+        self,
+    ) -> (
+        futures::stream::BoxStream<'static, Result<crate::yamux::Stream, crate::yamux::ConnectionError>>,
+        crate::yamux::Control,
+    ) {
+        (self.connection.boxed(), self.control)
+    }
+}
